@@ -46,7 +46,7 @@ CHECKS["C01"] = {
 CHECKS["C12"] = {
     "engine": "sx",
     "technique": "bounded symbolic execution (z3): one task of every operation of the real plan at a symbolic block coordinate; block shape vs write region, declared vs NumPy shape, backing-array metadata",
-    "text": "For the C01 catalogue plus qr, reshape, matmul, argmax: declared shape equals NumPy's and the sum of the declared chunks; the lazy Zarr array is created with the declared shape/dtype/grid; and for EVERY operation of the plan (intermediate, fused-away candidates, every output of multi-output ops) the block the real function returns for the blocks the real key function selects has exactly the extent of the region key_to_slices computes - for all geometries and all block coordinates within the bound.",
+    "text": "For the C01 catalogue plus qr, reshape, matmul, argmax (axis of either sign), tensordot (contracted axes in either order), arange (step of either sign), store into an existing target, widening reductions over 2-d chunks: declared shape equals NumPy's and the sum of the declared chunks; the lazy Zarr array is created with the declared shape/dtype/grid; and for EVERY operation of the plan (intermediate, fused-away candidates, every output of multi-output ops) the block the real function returns for the blocks the real key function selects has exactly the extent of the region key_to_slices computes - for all geometries and all block coordinates within the bound.",
     "note": _GEOM_NOTE + " dtype truthfulness beyond 'backing array dtype == declared dtype' is a finite casting table and is outside.",
 }
 CHECKS["C17"] = {
@@ -112,7 +112,7 @@ CHECKS["C18"] = {
 CHECKS["C19"] = {
     "engine": "sx",
     "technique": "symbolic execution (z3) of every discovered public entry point on metadata arrays under an explicit Spec with symbolic memory settings versus the default configuration",
-    "text": "For 80 one-array and 47 two-array public entry points: built under an explicit Spec (symbolic allowed_mem/reserved_mem with allowed-reserved >= 1e5; work_dir none/local/cloud; compressor auto/none; executor set) the expression is accepted exactly as under the default configuration (no helper array created without the operands' spec), records the same operation geometry (write chunks, task counts, fusability, shapes, chunks, dtypes), results carry the explicit Spec and every operation uses its allowed_mem/reserved_mem with projected memory including reserved memory; only a cloud work_dir changes the buffer-copy model.",
+    "text": "For 80 one-array and 47 two-array public entry points and 14 calls that mix a cubed operand with a numpy array or Python scalar in every position (map_blocks, apply_gufunc, where, maximum, clip, reflected operators): built under an explicit Spec (symbolic allowed_mem/reserved_mem with allowed-reserved >= 1e5; work_dir none/local/cloud; compressor auto/none; executor set) the expression is accepted exactly as under the default configuration (no helper array created without the operands' spec), records the same operation geometry (write chunks, task counts, fusability, shapes, chunks, dtypes), results carry the explicit Spec and every operation uses its allowed_mem/reserved_mem with projected memory including reserved memory; only a cloud work_dir changes the buffer-copy model.",
     "note": "value equality across real stores/codecs is outside (C01 decides values for the recorded geometry); take() (eager index evaluation) is exempt.",
 }
 CHECKS["C20"] = {
@@ -125,13 +125,13 @@ CHECKS["C06"] = {
     "engine": "sx",
     "technique": "bounded symbolic execution (z3) of the real task body (apply_blockwise) on recording arrays and of the real per-block RNG seeding with a symbolic 128-bit root seed",
     "text": "(i) For the operation catalogue with symbolic geometry and a symbolic block coordinate, the real apply_blockwise run twice issues the same reads and writes (a function of (coordinates, config) only), writes each output array exactly once, into the region of its own block coordinates and inside the array, and never reads an array it writes; with C05's disjointness of task regions this yields order/repetition/placement independence of the stored values (stated argument). (iii) random(): the Philox key of a block is valid for every 128-bit root seed, identical on re-execution of the block and distinct for distinct blocks.",
-    "note": _GEOM_NOTE + " Determinism of NumPy functions, cloudpickle round trips and third-party process-global state are outside; 'after downstream operations ran' needs C07.",
+    "note": _GEOM_NOTE + " Determinism of NumPy functions, cloudpickle round trips and third-party process-global state are outside; 'after downstream operations ran' needs C07. Also decided: the real create-arrays task (create_zarr_array -> LazyZarrArray.create -> open_zarr_v3_array) on stubs/zarr_model.py (validated against the installed zarr on 120 operation x pre-state combinations) from every pre-state of the store (existence/written flags are solver variables), re-run after downstream writes: open-or-create, never truncate, for plain and structured dtypes.",
 }
 CHECKS["C03"] = {
     "engine": "sx",
     "technique": "bounded symbolic execution (z3) of the memory formula, of what the real op construction feeds into it, and of the real task body on ledger-tracked abstract arrays (allocation model)",
     "text": "(A) calculate_projected_mem equals reserved + sum(in*(1+read copies)) + extra + out*(1+write copies) for symbolic sizes/copies and is monotone; for the operation catalogue with symbolic geometry the real construction projects at least reserved + 2x the chunk memory of EVERY input + 2x the largest output chunk. (B) the real apply_blockwise runs one task of every operation (unfused, and fused by the real default optimizer) at a symbolic block coordinate on abstract arrays that register their bytes in a ledger on creation and release them when CPython frees them; reads/writes add the documented transient copies; at every allocation point reserved + live bytes <= projected_mem. Known finding (confirmed with tracemalloc on the real code): fused operations with a lazily consuming successor under-project.",
-    "note": "decided against an ALLOCATION MODEL (stubs/anp.py: which NumPy functions allocate, which return views; validated for shapes against NumPy), not against the real allocator: LAPACK work buffers, codec internals, interpreter overhead and 2-d symbolic geometry are outside; a change that only consumes slack of a declaration is (correctly) not reported.",
+    "note": "decided against an ALLOCATION MODEL (stubs/anp.py: which NumPy functions allocate, which return views, NumPy result dtypes, temporary elision, CPython reference counting of the blocks; validated for shapes against NumPy; its byte counts reproduce tracemalloc on the real code for the recorded findings), not against the real allocator: LAPACK work buffers, codec internals (zarr-python 3 holds two read copies for compressed chunks where the memory model assumes one), interpreter overhead are outside; 2-d geometry only for reductions over axis 0 with chunks of 1-2 rows; a change that only consumes slack of a declaration is (correctly) not reported. Known findings (fused operations, var/std) are listed in known_findings.json.",
 }
 for p in PENDING:
     if p not in CHECKS:
